@@ -171,6 +171,56 @@ def bonds_of(mol):
 
 
 # ---------------------------------------------------------------------------------------------------------------------
+# correspondence 0: BaseReactor.__init__ (self._to_delete)
+
+def corr_to_delete(ck):
+    from chython import smarts
+    from chython.reactor import Transformer, Reactor, reactions
+    from chython.reactor import deprotection as dp
+    batch = Batch()
+
+    def one(t, delete_atoms, tag, describe):
+        pats = [t._pattern] if hasattr(t, '_pattern') else list(t._patterns)
+        pattern = lst([tup(zraw(k), b(bool(a.masked))) for q in pats for k, a in q.atoms()])
+        obs = sorted(t._to_delete)
+        batch.add(f'to_delete_eqb {pattern} {zl(list(t._replacement))} {b(delete_atoms)} {zl(obs)}', {'kind': tag, 'template': describe, 'observed': obs})
+        ck.count(f'to_delete:{tag}:' + ('some' if obs else 'none'))
+        ck.case(('to_delete', tag, describe, delete_atoms), nontrivial=bool(obs))
+    for k in (1, 2, 3, 4):
+        for r in range(k + 1):
+            for dele in itertools.combinations(range(1, k + 1), r):
+                rest = [i for i in range(1, k + 1) if i not in dele]
+                for q in range(len(rest) + 1):
+                    for masked in itertools.combinations(rest, q):
+                        one(any_transformer(k, dele, masked), True, 'any-atoms', f'{k}:{dele}:{masked}')
+    for pat, rep, what in SYNTHETIC:
+        for da in (True, False):
+            one(make_template(pat, rep, delete_atoms=da), da, 'synthetic', f'{pat}>>{rep}')
+    # a masked atom that the replacement names, a masked atom it does not name, unlabelled atoms
+    for pat, rep in (('[C;M:1][O:2][C:3]', '[A:1][A:2]'), ('[C;M][O:2][C:3]', '[A:2]'), ('[C:1][O][C;M]', '[A:1]'), ('[C;M:1][O;M:2]', '[A:2]'), ('C[O:2]C', '[A:2]')):
+        for da in (True, False):
+            one(make_template(pat, rep, delete_atoms=da), da, 'masked', f'{pat}>>{rep}')
+    for gname in dp._groups:
+        for r, p, *tests in getattr(dp, '_' + gname):
+            one(Transformer(smarts(r), smarts(p)), True, 'deprotection', gname)
+    for name in reactions.__all__:
+        rx = getattr(reactions, name, None)
+        for sub in getattr(rx, 'rxn_os', []) + getattr(rx, 'rxn_ms', []):
+            one(sub, True, 'built-in reaction', name)
+    for pats, prods in ((('[C:1](=[O:2])[O;D1:3]', '[N;D1:4][C:5]'), ('[A:1](=[A:2])[A:4][A:5]',)), (('[C:1][Br:2]', '[O;D1:3][C:4]'), ('[A:1][A:3][A:4]', '[Br-:2]')),
+                        (('[C;M:1]=[O:2]', '[N;D1:3]'), ('[A:3]',))):
+        for da in (True, False):
+            one(Reactor(tuple(smarts(x) for x in pats), tuple(smarts(x) for x in prods), delete_atoms=da), da, 'multi-reactant', f'{pats}>>{prods}')
+    ok, failing, log = batch.run('c16td')
+    ck.oblige('correspondence: BaseReactor.__init__ self._to_delete == Coq to_delete_of (every template the check uses, every built-in template)',
+              ok and not failing, 'correspondence', log or str([batch.meta[i] for i in failing[:5]]))
+    ck.extra['to_delete_cases'] = len(batch.cases)
+    if not ok or failing:
+        ck.unchecked('correspondence Reactor.to_delete_of vs chython/reactor/base.py:BaseReactor.__init__', log[-1500:], [repr(batch.meta[i]) for i in failing[:20]])
+    return ok and not failing
+
+
+# ---------------------------------------------------------------------------------------------------------------------
 # correspondence 1: BaseReactor._get_deleted
 
 def traced_get_deleted(t, mol, mapping):
@@ -444,7 +494,18 @@ SYNTHETIC = [
     ('[C:1][O:2]', '[A:1][A:2][A:9]', 'any-atom without image -> ValueError'),
     ('[O:1]', '[S:1]', 'single atom element change'),
     ('[C:1]#[N:2]', '[A:1]=[A:2][O:3]', 'triple to double + new atom'),
+    ('[O-:1][C:2]', '[O:1][A:2]', 'charged matched atom re-typed neutral'),
+    ('[N+:1]', '[N:1]', 'cation re-typed neutral (single atom)'),
+    ('[C:1][O:2] |^1:0|', '[C:1][A:2]', 'radical matched atom re-typed non-radical'),
+    ('[C:1][O;D1:2]', '[C:1][A:2] |^1:0|', 'radical requested on a re-typed atom'),
+    ('[13C:1]', '[C:1]', 'isotope dropped by re-typing'),
+    ('[C;D1:1]', '[14C:1]', 'isotope requested on a re-typed atom'),
+    ('[O-:1][C:2]', '[A:1][A:2]', 'any-atom: requested charge 0 replaces the charge of the match'),
 ]
+STEREO = ['C[C@H](N)C(=O)O', 'C[C@@H](O)CC(=O)OCC', 'C[C@@H]1CC[C@H](O)CC1', 'OC[C@H]1O[C@@H](O)[C@H](O)[C@@H](O)[C@@H]1O', 'N[C@@H](CO)C(=O)O',
+          'C[C@H](Cl)CCOC', 'CC(C)C[C@H](NC(C)=O)C(=O)O', 'Br[C@H](C)CC#N', 'C[C@@H](N)Cc1ccc(Cl)cc1', 'CCO[C@H](C)C(N)=O']
+DECORATED = ['C[N+](C)(C)CC(=O)[O-]', 'C[CH]O |^1:1|', '[13CH3]CO', 'CC(=O)[O-].[Na+]', '[O-][N+](=O)c1ccccc1', '[13CH3][13CH2]O', 'C[CH]C[O-] |^1:1|',
+             'C[NH3+].[Cl-]', '[2H]C([2H])([2H])O']
 
 
 def make_template(pat, rep, **kw):
@@ -492,7 +553,7 @@ def corr_patcher(ck):
     small = ['CCO', 'CC(=O)O', 'CCN', 'NCCO', 'CCOCC', 'c1ccccc1Cl', 'CC(=O)OCC', 'C1N2CC1C2', 'C1N(F)N(C1)Cl', 'OC1CC2CC1C2', 'CC#N',
              'C[N+](C)(C)CC(=O)[O-]', 'CC(N)C(=O)O', 'Brc1ccc(O)cc1', 'C[C@H](N)C(=O)O', 'C/C=C/CO', 'OCC1CO1', 'CC(C)OCc1ccccc1',
              '[13CH3]CO', 'CCO.CCN', 'C[CH]O |^1:1|', 'NN', 'CN(C)N', 'O', 'CO']
-    pool = small + corpus.sample(corpus.lipo(), 40 if quick else 400, ck.seed, 'c16p')
+    pool = small + DECORATED + corpus.sample(corpus.lipo(), 40 if quick else 400, ck.seed, 'c16p')
     mols = []
     for smi in pool:
         try:
@@ -703,10 +764,12 @@ def check_product(ck, t, mol, mapping0, prod, smi, tname, frame=True):
     """what the property says about one product; mapping0 = the match before _patcher extended it"""
     from chython.periodictable import AnyElement
     bonds = bonds_of(mol)
-    D = {mapping0[x] for x in t._to_delete} if t._to_delete else set()
+    rep = t._replacement
+    # read from the template itself, not from t._to_delete: matched atoms that are not masked and absent from the replacement
+    pattern_atoms = [(k, a) for q in ([t._pattern] if hasattr(t, '_pattern') else t._patterns) for k, a in q.atoms()]
+    D = {mapping0[k] for k, a in pattern_atoms if not a.masked and k not in rep}
     K = set(mapping0.values()) - D
     deleted = oracle_deleted(bonds, D, K)
-    rep = t._replacement
     new_atoms = [n for n in rep if n not in mapping0]
     expect = (set(mol) - deleted) | set(range(max(mol) + 1, max(mol) + 1 + len(new_atoms)))
     rp = (f"from chython import smiles, smarts\nfrom chython.reactor import Transformer\n"
@@ -735,13 +798,36 @@ def check_product(ck, t, mol, mapping0, prod, smi, tname, frame=True):
         got_nb = {k: int(bd) for k, bd in prod._bonds[n].items()}
         if exp_nb != got_nb:
             bad('frame-bonds', f'bonds of atom {n} (not named by the template) changed', got_nb, exp_nb)
+    # stereo of untouched tetrahedral centres whose neighbours all survive: same sign relative to the same neighbour order
+    # (the label may only disappear, when the edit made the centre non-stereogenic)
+    try:
+        st_m = mol.stereogenic_tetrahedrons
+    except Exception:
+        st_m = {}
+    for n, a in mol.atoms():
+        if n in deleted or n in patched or a.stereo is None or n not in st_m or set(mol._bonds[n]) != set(prod._bonds[n]):
+            continue
+        if prod._atoms[n].stereo is None:
+            ck.count('search:untouched-stereo-label-dropped')
+            continue
+        try:
+            got_sign = prod._translate_tetrahedron_sign(n, st_m[n])
+        except (KeyError, ValueError):
+            ck.count('search:untouched-stereo-not-translatable')
+            continue
+        ck.count('search:untouched-stereo-centres-compared')
+        if got_sign != a.stereo:
+            bad('frame-stereo', f'tetrahedral centre {n} is not named by the template, keeps all its neighbours, but its configuration is inverted',
+                {'sign relative to ' + str(st_m[n]): got_sign}, {'sign relative to ' + str(st_m[n]): a.stereo})
     newnum = dict(zip(new_atoms, range(max(mol) + 1, max(mol) + 1 + len(new_atoms))))
     img = lambda n: mapping0[n] if n in mapping0 else newnum[n]
     for n, ra in rep.atoms():
         pa = prod._atoms[img(n)]
         want_el = mol._atoms[mapping0[n]].atomic_number if isinstance(ra, AnyElement) else ra.atomic_number
-        if (pa.atomic_number, pa.charge, pa.is_radical) != (want_el, ra.charge, ra.is_radical):
-            bad('named-atom', f'replacement atom {n} does not have the requested element/charge/radical', (pa.atomic_number, pa.charge, pa.is_radical), (want_el, ra.charge, ra.is_radical))
+        want_iso = mol._atoms[mapping0[n]].isotope if isinstance(ra, AnyElement) else ra.isotope
+        if (pa.atomic_number, pa.isotope, pa.charge, pa.is_radical) != (want_el, want_iso, ra.charge, ra.is_radical):
+            bad('named-atom', f'replacement atom {n} does not have the requested element/isotope/charge/radical', (pa.atomic_number, pa.isotope, pa.charge, pa.is_radical),
+                (want_el, want_iso, ra.charge, ra.is_radical))
     for n, k, rb in rep.bonds():
         if int(prod._bonds[img(n)].get(img(k), 0)) != int(rb):
             bad('named-bond', f'replacement bond {n}-{k} does not have the requested order', int(prod._bonds[img(n)].get(img(k), 0)), int(rb))
@@ -756,7 +842,7 @@ def search_templates(ck):
     from chython.reactor import deprotection as dp
     rng = random.Random(f'{ck.seed}:c16st')
     quick = ck.tier == 'quick'
-    pool = BRIDGED + corpus.sample(corpus.lipo(), 150 if quick else 1500, ck.seed, 'c16s')
+    pool = DECORATED + STEREO + BRIDGED + corpus.sample(corpus.lipo(), 150 if quick else 1500, ck.seed, 'c16s')
     mols = []
     for smi in pool:
         try:
@@ -775,8 +861,9 @@ def search_templates(ck):
             templates.append((f'deprotection.{gname}', r, p, tests[:1]))
     n_prod = 0
     for tname, pat, rep, tests in templates:
-        t_raw = Transformer(smarts(pat), smarts(rep), fix_aromatic_rings=False)
-        t_def = Transformer(smarts(pat), smarts(rep))
+        pq, rq = smarts(pat), smarts(rep)      # parsed once: unlabelled atoms get the same numbers in both transformers
+        t_raw = Transformer(pq, rq, fix_aromatic_rings=False)
+        t_def = Transformer(pq, rq)
         extra = []
         for s in tests:
             try:
@@ -934,6 +1021,9 @@ def search_reactor(ck):
                                   {'reaction': name, 'reactants': rs}, f'{type(e).__name__}: {e}', 'reactions', 'no exception expected', replay_py=rp_r)
                 continue
             ck.count(f'search:reactor:{name}', len(out))
+            if len({str(r) for r in out}) != len(out):
+                ck.counterexample(f'reactor-duplicates:{name}:{rs}', 'the same reaction is yielded more than once (one product per distinct match)',
+                                  {'reaction': name, 'reactants': rs}, sorted(str(r) for r in out), 'pairwise different reactions', 'string comparison', replay_py=rp_r)
             base = sorted('.'.join(sorted(str(p) for p in r.products)) for r in out)
             for r in out:
                 n += 1
@@ -956,6 +1046,83 @@ def search_reactor(ck):
     ck.extra['reactor_products_checked'] = n
 
 
+def search_reactor_synthetic(ck):
+    """Reactor.__call__ / _single_stage on synthetic multi-reactant templates with spectator molecules, colliding numbers, new
+    atoms, one-shot and exhaustive modes: unique numbers, spectators untouched, no duplicates, element balance, order independence"""
+    from collections import Counter
+    from chython import smiles, smarts
+    from chython.reactor import Reactor
+    rng = random.Random(f'{ck.seed}:c16rs')
+    # (patterns, products, reactant sets incl. spectators); none of the templates deletes an atom, so the element balance is exact
+    temps = [
+        (('[C:1]=[O:2]', '[N;D1:3]'), ('[A:1](-[A:2])-[A:3]-[C:7](=[O:8])-[C:9]',),
+         [('CC=O', 'NC', 'CCCCCCCCCCCC'), ('O=Cc1ccccc1', 'NCCO', 'CCCCCCCCCCCCCCCC', 'OO'), ('CC(C)=O', 'NCC')]),
+        (('[C:1](=[O:2])[O;D1:3]', '[N;D1:4][C:5]'), ('[A:1](=[A:2])[A:4][A:5].[A:3]',),
+         [('CC(=O)O', 'NCC', 'c1ccccc1CCCCCC'), ('OC(=O)CCC(=O)O', 'NCCN'), ('CC(=O)O', 'NC', 'CCCCCCCC', 'CCCCCCCCCC')]),
+        (('[C:1][Br:2]', '[O;D1:3][C:4]'), ('[A:1][A:3][A:4]', '[Br-:2]'), [('CCBr', 'OC', 'CCCCCCCCC'), ('BrCCBr', 'OCC')]),
+        (('[C:1]#[N:2]',), ('[A:1](=[A:2])[O:3][C:4]',), [('CC#N', 'CCCCCCCC'), ('N#CCC#N',), ('N#CC', 'CC#N')]),
+    ]
+    n = 0
+    for pats, prods, rsets in temps:
+        new_atoms = Counter()
+        pq = [smarts(x) for x in pats]
+        rq = [smarts(x) for x in prods]
+        named = {k for q in pq for k in q}
+        for q in rq:
+            for k, a in q.atoms():
+                if k not in named:
+                    new_atoms[a.atomic_number] += 1
+        for one_shot in (True, False):
+            rx = Reactor(tuple(pq), tuple(rq), one_shot=one_shot, polymerise_limit=3, fix_aromatic_rings=False)
+            for rs in rsets:
+                tname = f"{'.'.join(pats)}>>{'.'.join(prods)} one_shot={one_shot}"
+                rp = (f"from chython import smiles, smarts\nfrom chython.reactor import Reactor\nrx = Reactor(tuple(smarts(x) for x in {pats!r}), tuple(smarts(x) for x in {prods!r}), "
+                      f"one_shot={one_shot}, polymerise_limit=3, fix_aromatic_rings=False)\nfor r in rx(*[smiles(x) for x in {rs!r}]):\n    print(str(r), [list(p) for p in r.products])")
+
+                def run(ms):
+                    return list(itertools.islice(rx(*ms), 200))
+                try:
+                    ms = [smiles(x) for x in rs]
+                    out = run(ms)
+                    rev = run([smiles(x) for x in reversed(rs)])
+                    ren = run([corpus.renumber(smiles(x), rng) for x in rs])
+                except Exception as e:
+                    ck.counterexample(f'reactor-synthetic-raises:{tname}:{rs}', f'Reactor raises {type(e).__name__} on valid reactants', {'template': tname, 'reactants': rs},
+                                      f'{type(e).__name__}: {e}', 'reactions', 'no exception expected', replay_py=rp)
+                    continue
+                ck.count(f'search:reactor-synthetic:one_shot={one_shot}', len(out))
+
+                def bad(key, what, obs, exp):
+                    ck.counterexample(f'{key}:{tname}:{rs}', what, {'template': tname, 'reactants': rs}, obs, exp, 'read-out of the reactions', replay_py=rp)
+                if not out:
+                    bad('reactor-no-reaction', 'no reaction although every pattern matches a reactant', [], 'at least one reaction')
+                if len({str(r) for r in out}) != len(out):
+                    bad('reactor-duplicates', 'the same reaction is yielded more than once', sorted(str(r) for r in out), 'pairwise different reactions')
+                key = lambda rr: sorted('.'.join(sorted(str(p) for p in r.products)) for r in rr)
+                if set(key(out)) != set(key(rev)):
+                    bad('reactor-order', 'product sets depend on the order of the reactants', key(rev), key(out))
+                if set(key(out)) != set(key(ren)):
+                    bad('reactor-numbering', 'product sets depend on the numbering of the reactants', key(ren), key(out))
+                rel = Counter(a.atomic_number for m in ms for _, a in m.atoms())
+                for r in out:
+                    n += 1
+                    ck.case(('reactor-synthetic', tname, rs, str(r)), nontrivial=True)
+                    nums = [x for p in r.products for x in p]
+                    if len(nums) != len(set(nums)):
+                        bad('reactor-unique', 'atom numbers repeat over the products of one reaction', [list(p) for p in r.products], 'unique numbers')
+                    if one_shot:
+                        # the reactants that were not chosen are products, unchanged; one application adds exactly the new atoms
+                        pel = Counter(a.atomic_number for p in r.products for _, a in p.atoms())
+                        want = rel + new_atoms
+                        if pel != want:
+                            bad('reactor-balance', 'elements of the products are not those of the reactants plus the new atoms of the template', dict(pel), dict(want))
+                        spect = [m for m in ms if not any(m == x for x in r.reactants[:len(pats)])]
+                        for m in spect:
+                            if not any(p == m and struct_sig(p)[1].__len__() == struct_sig(m)[1].__len__() for p in r.products):
+                                bad('reactor-spectator', 'a molecule that no pattern matched in this reaction is missing from / changed in the products', str(r), str(m))
+    ck.extra['reactor_synthetic_reactions_checked'] = n
+
+
 def run(ck):
     ck.trusted += ['correspondence runner harness/checks/C16.py + harness/coqcases.py + harness/coqmol.py', 'CachedMethods shim harness/boot.py',
                    'CPython 3.12.1', 'RDKit 2026.3 (search only: GetMolFrags as second component oracle)']
@@ -973,13 +1140,24 @@ def run(ck):
                         '(a fragment was deleted). patcher: synthetic templates covering each branch + every deprotection template x molecules x matches; '
                         'non-trivial = the call returned a product. search: union-find / RDKit component oracle, template read-out, identity templates, '
                         'valence, renumbering and reactant order; every case distinct')
-    proved = common.standard_proof_steps(ck)
-    tied = corr_get_deleted(ck)
-    tied = corr_patcher(ck) and tied
-    tied = corr_overlap(ck) and tied
-    search_deleted_exhaustive(ck)
-    search_templates(ck)
-    search_identity(ck)
-    search_reactor(ck)
+    import time
+    steps = {}
+
+    def timed(name, f):
+        t0 = time.time()
+        r = f(ck)
+        steps[name] = round(time.time() - t0, 1)
+        return r
+    proved = timed('proof steps', common.standard_proof_steps)
+    tied = timed('corr to_delete', corr_to_delete)
+    tied = timed('corr get_deleted', corr_get_deleted) and tied
+    tied = timed('corr patcher', corr_patcher) and tied
+    tied = timed('corr overlap', corr_overlap) and tied
+    timed('search get_deleted 5-atom graphs', search_deleted_exhaustive)
+    timed('search templates', search_templates)
+    timed('search identity', search_identity)
+    timed('search reactor', search_reactor)
+    timed('search reactor synthetic', search_reactor_synthetic)
+    ck.extra['step_seconds'] = steps
     ck.extra['proved'] = proved
     ck.extra['tied'] = tied
